@@ -25,3 +25,13 @@ func (h *FBDNSDB) VerifDBPath() string { return h.dbConfig.Path }
 
 // VerifDB returns the served database (simulation testing only).
 func (h *FBDNSDB) VerifDB() *db.DB { return h.dnsdb }
+
+// VerifIdle reports whether no reload or close currently holds the reload lock
+// (simulation testing only; meaningful when the caller is the only running goroutine).
+func (h *FBDNSDB) VerifIdle() bool {
+	if h.reloadMu.TryLock() {
+		h.reloadMu.Unlock()
+		return true
+	}
+	return false
+}
